@@ -414,6 +414,10 @@ class AggregatedFrame(ProtocolDataUnit):
                 raise DecodeError("aggregated PDU length field error in AGF")
             if pdu_size > size - 2:
                 raise DecodeError("aggregated PDU exceeds the AGF PDU size")
+            if pdu_size >= 2:
+                (header,) = struct.unpack_from('!H', data, offset+2)
+                if header >> 6 & 15 == 0b0010:
+                    raise DecodeError("AGF PDU can not contain an AGF PDU")
             agf_pdu.append(decode(data, offset+2, pdu_size))
             offset, size = offset + 2 + pdu_size, size - 2 - pdu_size
         return agf_pdu
